@@ -53,6 +53,8 @@ METHOD_PRIMS = {
     "to_bytes": {"OverflowError"},
     "index": {"ValueError"}, "remove": {"ValueError"},
     "popleft": {"IndexError"},
+    "unpack": {"struct.error"}, "unpack_from": {"struct.error"}, "iter_unpack": {"struct.error"},
+    "pack": {"struct.error"}, "pack_into": {"struct.error"},
 }
 # queue get/put only raise with block=False / timeout
 FUNC_PRIMS = {
@@ -83,9 +85,27 @@ NORAISE_PREFIXES = ("self.logger.", "logger.", "self.connection_logger.",
                     "self.stats_logger.", "self.msg_dump.", "logging.")
 
 
+FAULT_METHOD_PRIMS = {
+    "recv": {"OSError"}, "send": {"OSError"}, "sctp_send": {"OSError"},
+    "connect": {"OSError"}, "connectx": {"OSError"},
+    "decode": {"UnicodeDecodeError"},
+    "start": {"RuntimeError"},
+}
+CODEC_ENTRIES = {"as_bytes", "from_bytes"}
+
+
 class Effects:
-    def __init__(self, model: SourceModel, extra_prims: dict | None = None):
+    def __init__(self, model: SourceModel, profile: str = "full", base: "Effects | None" = None):
+        """profile 'full': value model for the codec (C04).
+        profile 'faults': the fault model of C14 - transport faults, user callbacks,
+        explicit raises of the node package, queue time-outs, Thread.start, and the
+        codec only through its entry points as_bytes / from_bytes (their 'full'
+        summaries); building messages from well-typed internal values is assumed
+        not to raise."""
         self.model = model
+        self.profile = profile
+        self.base = base
+        self.callable_attrs: dict[str, list[FuncInfo]] = {}
         self.summary: dict[int, frozenset[str]] = {}
         self.funcs: list[FuncInfo] = list(model.all_funcs())
         self.by_name: dict[str, list[FuncInfo]] = {}
@@ -99,6 +119,7 @@ class Effects:
                     self.props_by_name.setdefault(f.name, []).append(f)
                 else:
                     self.by_name.setdefault(f.name, []).append(f)
+        self._collect_callable_attrs()
         self.exc_classes: dict[str, str | None] = dict(BUILTIN_BASES)
         for c in model.all_classes():
             for b in c.node.bases:
@@ -121,6 +142,40 @@ class Effects:
         self.suppressed: list[tuple] = []
         self.iterations = 0
         self._solve()
+
+    def _collect_callable_attrs(self):
+        """<recv>.<attr> = self.<method> | <function>  makes  x.<attr>(...)  a call of it."""
+        for f in self.funcs:
+            for n in A.walk_no_nested(f.node):
+                if not isinstance(n, (ast.Assign, ast.AnnAssign)) or getattr(n, "value", None) is None:
+                    continue
+                v = n.value
+                tgt = None
+                if isinstance(v, ast.Attribute) and isinstance(v.value, ast.Name) \
+                        and v.value.id == "self" and f.cls is not None:
+                    tgt = self.model.find_method(f.cls, v.attr)
+                elif isinstance(v, ast.Name):
+                    b = f.module.lookup(v.id)
+                    if b is not None and b.kind == "func":
+                        tgt = b.module.funcs.get(b.node.name)
+                if tgt is None:
+                    continue
+                for t in A.store_targets(n):
+                    if isinstance(t, ast.Attribute) and t.attr not in self.by_name:
+                        lst = self.callable_attrs.setdefault(t.attr, [])
+                        if tgt not in lst:
+                            lst.append(tgt)
+
+    def _in_message_pkg(self, g: FuncInfo) -> bool:
+        return ".message" in g.module.name
+
+    def _callee(self, g: FuncInfo) -> set[str]:
+        """Summary of a resolved callee under the active profile."""
+        if self.profile == "faults" and self._in_message_pkg(g):
+            if g.name in CODEC_ENTRIES and self.base is not None:
+                return set(self.base.raises(g))
+            return set()
+        return set(self.raises(g))
 
     # -- hierarchy -----------------------------------------------------------
     def canon(self, name: str) -> str:
@@ -190,6 +245,8 @@ class Effects:
 
     # -- per function --------------------------------------------------------
     def _func_raises(self, f: FuncInfo) -> set[str]:
+        if self.profile == "faults" and self._in_message_pkg(f):
+            return set()
         self._cur = f
         self._cur_trace = self.trace.setdefault(id(f.node), {})
         body = self._block(f.node.body, f, caught=None)
@@ -328,7 +385,7 @@ class Effects:
             return set()               # external object
         out = set()
         for p in self._dispatch(cands, rc):
-            r = self.raises(p)
+            r = self._callee(p)
             out |= r
             self._note(f, n, r, f"reads property {p.qualname}", p)
         return out
@@ -342,7 +399,7 @@ class Effects:
             return set()
         out = set()
         for p in self._dispatch(cands, rc):
-            r = self.raises(p)
+            r = self._callee(p)
             out |= r
             self._note(f, t, r, f"stores property {p.qualname}", p)
         return out
@@ -384,6 +441,8 @@ class Effects:
             self._note(f, c, ["ANY"], f"user callback {name}")
             return {"ANY"}
         full = self._qual_external(fn, f)
+        if self.profile == "faults" and full in FUNC_PRIMS:
+            return set()
         if full in FUNC_PRIMS:
             r = set(FUNC_PRIMS[full])
             if full.endswith("fromtimestamp") and c.args:
@@ -400,7 +459,7 @@ class Effects:
             if b is not None and b.kind == "func":
                 g = b.module.funcs.get(b.node.name)
                 if g is not None:
-                    r = set(self.raises(g))
+                    r = set(self._callee(g))
                     self._note(f, c, r, f"calls {g.qualname}", g)
                     return r
             ci = f.module.lookup_class(fn.id)
@@ -428,7 +487,7 @@ class Effects:
                 for cl in self.model.mro(f.cls)[1:]:
                     if meth in cl.methods:
                         g = cl.methods[meth]
-                        r = set(self.raises(g))
+                        r = set(self._callee(g))
                         self._note(f, c, r, f"calls {g.qualname}", g)
                         return r
                 return set()
@@ -438,7 +497,7 @@ class Effects:
                 if b is not None and b.kind == "module":
                     g = b.module.funcs.get(meth)
                     if g is not None:
-                        r = set(self.raises(g))
+                        r = set(self._callee(g))
                         self._note(f, c, r, f"calls {g.qualname}", g)
                         return r
                     ci = b.module.classes.get(meth)
@@ -448,12 +507,19 @@ class Effects:
                 if ci is not None and not self._is_local(base.id, f):
                     g = self.model.find_method(ci, meth)
                     if g is not None:
-                        r = set(self.raises(g))
+                        r = set(self._callee(g))
                         self._note(f, c, r, f"calls {g.qualname}", g)
                         return r
+            if meth in self.callable_attrs and meth not in self.by_name:
+                out = set()
+                for g in self.callable_attrs[meth]:
+                    r = self._callee(g)
+                    out |= r
+                    self._note(f, c, r, f"calls {g.qualname} (through attribute .{meth})", g)
+                return out
             rc = self.recv_class(base, f)
             if isinstance(rc, str):
-                r = set(METHOD_PRIMS.get(meth, set()))
+                r = set(self._mprims().get(meth, set()))
                 if meth in ("get", "put", "get_nowait", "put_nowait") and rc.startswith("queue."):
                     r = self._queue_raises(meth, c)
                 self._note(f, c, r, f"{rc}.{meth}(...)")
@@ -466,7 +532,7 @@ class Effects:
                 if picked:
                     out = set()
                     for g in picked:
-                        r = self.raises(g)
+                        r = self._callee(g)
                         out |= r
                         self._note(f, c, r, f"calls {g.qualname}", g)
                     return out
@@ -474,7 +540,7 @@ class Effects:
                 if meth.startswith("__") and f.cls is not None:
                     g = f.cls.methods.get(meth)
                     if g is not None:
-                        r = set(self.raises(g))
+                        r = set(self._callee(g))
                         self._note(f, c, r, f"calls {g.qualname}", g)
                         return r
             if cands and rc is None and meth not in METHOD_PRIMS \
@@ -483,7 +549,7 @@ class Effects:
                                      "keys", "pop", "add", "lower", "split", "hex", "format"):
                 out = set()
                 for g in cands:
-                    r = self.raises(g)
+                    r = self._callee(g)
                     out |= r
                     self._note(f, c, r, f"calls {g.qualname} (by name)", g)
                 return out
@@ -492,22 +558,22 @@ class Effects:
                 r = self._queue_raises(meth, c)
                 self._note(f, c, r, f"queue.{meth}(...)")
                 return r
-            if meth in METHOD_PRIMS and not cands:
-                r = set(METHOD_PRIMS[meth])
+            if meth in self._mprims() and not cands:
+                r = set(self._mprims()[meth])
                 self._note(f, c, r, f".{meth}(...)")
                 return r
-            if meth in METHOD_PRIMS and cands and rc is None:
+            if meth in self._mprims() and cands and rc is None:
                 # ambiguous (e.g. conn.close vs socket.close): union
-                out = set(METHOD_PRIMS[meth])
+                out = set(self._mprims()[meth])
                 for g in cands:
-                    out |= self.raises(g)
-                    self._note(f, c, self.raises(g), f"calls {g.qualname} (by name)", g)
-                self._note(f, c, METHOD_PRIMS[meth], f".{meth}(...)")
+                    out |= self._callee(g)
+                    self._note(f, c, self._callee(g), f"calls {g.qualname} (by name)", g)
+                self._note(f, c, self._mprims()[meth], f".{meth}(...)")
                 return out
             if cands and rc is None:
                 out = set()
                 for g in cands:
-                    r = self.raises(g)
+                    r = self._callee(g)
                     out |= r
                     self._note(f, c, r, f"calls {g.qualname} (by name)", g)
                 return out
@@ -537,7 +603,7 @@ class Effects:
                 for m in ("__init__", "__post_init__"):
                     g = ci.methods.get(m)
                     if g is not None:
-                        r = self.raises(g)
+                        r = self._callee(g)
                         out |= r
                         self._note(f, c, r, f"constructs {ci.name} via `{name}` ({g.qualname})", g)
         return out
@@ -578,6 +644,99 @@ class Effects:
             return (a[0] - b[1], a[1] - b[0])
         return None
 
+    # -- call graph ------------------------------------------------------------
+    def resolve_call(self, c: ast.Call, f: FuncInfo) -> list[FuncInfo]:
+        """Repository functions a call may invoke (same resolution as _call)."""
+        fn = c.func
+        out: list[FuncInfo] = []
+        if isinstance(fn, ast.Name):
+            if self._is_local(fn.id, f):
+                return out
+            b = f.module.lookup(fn.id)
+            if b is not None and b.kind == "func":
+                g = b.module.funcs.get(b.node.name)
+                return [g] if g is not None else []
+            ci = f.module.lookup_class(fn.id)
+            if ci is not None:
+                for m in ("__init__", "__post_init__"):
+                    g = self.model.find_method(ci, m)
+                    if g is not None:
+                        out.append(g)
+            return out
+        if not isinstance(fn, ast.Attribute):
+            return out
+        meth, base = fn.attr, fn.value
+        if isinstance(base, ast.Call) and A.call_name(base) == "super" and f.cls is not None:
+            for cl in self.model.mro(f.cls)[1:]:
+                if meth in cl.methods:
+                    return [cl.methods[meth]]
+            return out
+        if isinstance(base, ast.Name):
+            b = f.module.lookup(base.id)
+            if b is not None and b.kind == "module":
+                g = b.module.funcs.get(meth)
+                if g is not None:
+                    return [g]
+                ci = b.module.classes.get(meth)
+                if ci is not None:
+                    return [g for g in (self.model.find_method(ci, m)
+                                        for m in ("__init__", "__post_init__")) if g]
+            ci = f.module.lookup_class(base.id) if base.id not in ("self", "cls") else None
+            if ci is not None and not self._is_local(base.id, f):
+                g = self.model.find_method(ci, meth)
+                return [g] if g is not None else []
+        if meth in self.callable_attrs and meth not in self.by_name:
+            return list(self.callable_attrs[meth])
+        rc = self.recv_class(base, f)
+        if isinstance(rc, str):
+            return out
+        cands = self.by_name.get(meth, [])
+        if isinstance(base, ast.Name) and base.id in ("self", "cls") and f.cls is not None:
+            rc = f.cls
+        if cands and rc is not None:
+            picked = self._dispatch(cands, rc)
+            if picked:
+                return picked
+            if meth.startswith("__") and f.cls is not None and meth in f.cls.methods:
+                return [f.cls.methods[meth]]
+            return out
+        return list(cands)
+
+    def callees(self, f: FuncInfo) -> list[FuncInfo]:
+        key = id(f.node)
+        cache = self.__dict__.setdefault("_callees", {})
+        if key not in cache:
+            out: list[FuncInfo] = []
+            for n in A.walk_no_nested(f.node):
+                if isinstance(n, ast.Call):
+                    for g in self.resolve_call(n, f):
+                        if g not in out:
+                            out.append(g)
+                elif isinstance(n, ast.Attribute) and isinstance(n.ctx, ast.Load) \
+                        and n.attr in self.props_by_name:
+                    rc = self.recv_class(n.value, f)
+                    if not isinstance(rc, str):
+                        for g in self._dispatch(self.props_by_name[n.attr], rc):
+                            if g not in out:
+                                out.append(g)
+            cache[key] = out
+        return cache[key]
+
+    def reachable_funcs(self, roots: list[FuncInfo], depth: int = 12) -> list[FuncInfo]:
+        seen: list[FuncInfo] = []
+        todo = [(r, 0) for r in roots]
+        while todo:
+            g, d = todo.pop()
+            if g in seen or d > depth:
+                continue
+            seen.append(g)
+            for h in self.callees(g):
+                todo.append((h, d + 1))
+        return seen
+
+    def _mprims(self) -> dict:
+        return FAULT_METHOD_PRIMS if self.profile == "faults" else METHOD_PRIMS
+
     def _queue_raises(self, meth: str, c: ast.Call) -> set[str]:
         blocking = True
         timeout = False
@@ -608,7 +767,7 @@ class Effects:
         for m in ("__init__", "__post_init__"):
             g = self.model.find_method(ci, m)
             if g is not None:
-                r = self.raises(g)
+                r = self._callee(g)
                 out |= r
                 self._note(f, c, r, f"constructs {ci.name} ({g.qualname})", g)
         return out
@@ -669,6 +828,14 @@ class Effects:
         for e in node_exprs:
             out |= self._expr(e, f)
         return out
+
+
+def fault_effects_of(model: SourceModel) -> Effects:
+    e = getattr(model, "_fault_effects", None)
+    if e is None:
+        e = Effects(model, profile="faults", base=effects_of(model))
+        model._fault_effects = e
+    return e
 
 
 def effects_of(model: SourceModel) -> Effects:
